@@ -1,4 +1,208 @@
+//! C18 - backend-initiated requests reach the frontend handler faithfully, with status.
+//!
+//! Real `Backend` proxy <-> tap <-> real `FrontendReqHandler` with a recording handler (wrapped in
+//! the library's Mutex adapter). The tap (this harness) relays bytes and descriptors between two
+//! socketpairs and decodes every message with the independent codec, so the acknowledgement
+//! actually written on the wire is observed, not just the proxy's return value.
+
+use crate::c01::{self, BeOp};
+use crate::rec::{Call, FeOut, RecFrontend};
+use crate::util;
 use crate::Cfg;
-pub fn run(_cfg: &Cfg) {
-    common::report::inconclusive("not implemented");
+use common::spec::{self, F_NEED_REPLY, F_REPLY, F_VERSION1};
+use common::sys;
+use common::{jo, report, Rng, J};
+use std::os::unix::io::{AsRawFd, RawFd};
+use std::sync::{Arc, Mutex};
+
+use vhost::vhost_user::{Backend, FrontendReqHandler};
+
+struct Session {
+    proxy: Backend,
+    tap_b: std::os::unix::net::UnixStream, // our end of the proxy's socket
+    srv: FrontendReqHandler<Mutex<RecFrontend>>,
+    tap_f: RawFd, // our end of the handler's socket
+    h: Arc<Mutex<RecFrontend>>,
+    reply_ack: bool,
+}
+
+fn session(reply_ack: bool) -> Session {
+    let (a, tap_b) = sys::pair();
+    let proxy = Backend::from_stream(a);
+    proxy.set_shared_object_flag(true);
+    proxy.set_shmem_flag(true);
+    proxy.set_reply_ack_flag(reply_ack);
+    let h = Arc::new(Mutex::new(RecFrontend::default()));
+    let mut srv = FrontendReqHandler::new(h.clone()).expect("FrontendReqHandler");
+    srv.set_reply_ack_flag(reply_ack);
+    let tap_f = unsafe { libc::dup(srv.get_tx_raw_fd()) };
+    Session { proxy, tap_b, srv, tap_f, h, reply_ack }
+}
+
+fn one(cfg: &Cfg, s: &mut Session, op: &BeOp, out: &FeOut, seqno: u64, case: &str) -> bool {
+    s.h.lock().unwrap().out = Some(out.clone());
+    let before = s.h.lock().unwrap().log.len();
+    let file = sys::memfd("c18", 4096);
+    let file_id = sys::ident(file.as_raw_fd());
+    let proxy = s.proxy.clone();
+    let op2 = op.clone();
+    let (tx, rx) = std::sync::mpsc::channel();
+    let tid = Arc::new(std::sync::atomic::AtomicI32::new(0));
+    let tid2 = tid.clone();
+    let th = std::thread::spawn(move || {
+        tid2.store(sys::gettid(), std::sync::atomic::Ordering::SeqCst);
+        let r = util::catch(|| op2.exec(&proxy, &file));
+        let _ = tx.send(());
+        (r, file)
+    });
+    // tap: proxy -> handler
+    let mut req = spec::read_msg(s.tap_b.as_raw_fd(), 5000, 1 << 16);
+    // Before the request is handed to the handler: with REPLY_ACK the caller must be parked
+    // waiting for the ack, without it the call must return on its own. Decided on thread state
+    // (returned / parked in recvmsg), not on elapsed time.
+    let mut returned = false;
+    let mut parked = false;
+    sys::wait_until(10_000, || {
+        returned = returned || rx.try_recv().is_ok();
+        let t = tid.load(std::sync::atomic::Ordering::SeqCst);
+        parked = !returned && t > 0 && sys::parked_in(t, &[sys::SYS_RECVMSG]);
+        returned || parked
+    });
+    let returned_before_handling = returned;
+    if !returned && !parked {
+        report::inconclusive("C18: proxy thread neither returned nor parked in recvmsg");
+    }
+    let (body, nfds) = op.wire();
+    let mut problems: Vec<(String, String)> = Vec::new();
+    if !req.complete() {
+        problems.push(("request-not-written".into(), format!("{:?}", req.hdr_bytes)));
+    }
+    let want_flags = F_VERSION1 | if s.reply_ack { F_NEED_REPLY } else { 0 };
+    if req.complete() && (req.hdr().code != op.code() || req.hdr().flags != want_flags || req.body != body || req.fds_first.len() != nfds) {
+        problems.push(("request-on-wire".into(), format!("hdr {:?} body {:x?} fds {}", req.hdr(), req.body, req.fds_first.len())));
+    }
+    let _ = sys::send_all(s.tap_f, &req.all_bytes(), &req.fds_first);
+    let handled = util::catch(|| s.srv.handle_request());
+    req.close_fds();
+    // tap: handler -> proxy
+    let (mut acks, rest) = spec::read_all_msgs(s.tap_f, 1 << 16);
+    for a in &acks {
+        let _ = sys::send_all(s.tap_b.as_raw_fd(), &a.all_bytes(), &[]);
+    }
+    let (res, file) = th.join().expect("proxy thread");
+    let log: Vec<Call> = s.h.lock().unwrap().log[before..].to_vec();
+    report::eval(1);
+    report::count(&format!("req.{}", op.name()), 1);
+    report::distinct(report::hash_mix(report::hash_str(&format!("{}:{:?}:{}", op.name(), out, s.reply_ack)), report::hash_bytes(&body)));
+    // (1) handler invoked exactly once with equal arguments and the same open file
+    let (m, args, bytes, nf) = op.expected_call();
+    let ok_log = log.len() == 1 && log[0].method == m && log[0].args == args && log[0].bytes == bytes && log[0].fds.len() == nf && (nf == 0 || (log[0].fds[0].1 == file_id && file_id.is_some()));
+    if !ok_log {
+        problems.push(("handler-invocation".into(), format!("{:?}", log.iter().map(|c| c.j().to_string()).collect::<Vec<_>>())));
+    }
+    // (2) acknowledgement on the wire
+    let want_val = match out {
+        FeOut::Val(v) => *v,
+        FeOut::Errno(e) => (-(*e as i64)) as u64,
+        FeOut::Other => (-(libc::EINVAL as i64)) as u64,
+    };
+    if s.reply_ack {
+        let ok_ack = acks.len() == 1 && rest.is_empty() && {
+            let a = &acks[0];
+            a.hdr().code == op.code() && a.hdr().flags == (F_VERSION1 | F_REPLY) && a.body == spec::p_u64(want_val) && a.fds_first.is_empty()
+        };
+        if !ok_ack {
+            problems.push(("ack-on-wire".into(), format!("want {want_val:#x}; wrote {:?}", acks.iter().map(|a| format!("{:?} {:x?}", a.hdr(), a.body)).collect::<Vec<_>>())));
+        }
+        // (3) proxy result: success iff the handler returned zero
+        let should_ok = *out == FeOut::Val(0);
+        match &res {
+            Ok(Ok(0)) if should_ok => {}
+            Ok(Err(_)) if !should_ok => {}
+            other => problems.push(("proxy-result".into(), format!("handler returned {out:?}, proxy call returned {:?}", other.as_ref().map_err(|p| p.msg.clone())))),
+        }
+        if returned_before_handling {
+            problems.push(("proxy-did-not-await-ack".into(), "the proxy call returned before the request was handled".into()));
+        }
+    } else {
+        if !acks.is_empty() || !rest.is_empty() {
+            problems.push(("ack-without-reply-ack".into(), format!("{} message(s) written", acks.len())));
+        }
+        if !matches!(res, Ok(Ok(_))) {
+            problems.push(("proxy-result".into(), format!("without REPLY_ACK the proxy call returned {:?}", res.as_ref().map_err(|p| p.msg.clone()))));
+        }
+        if !returned_before_handling {
+            problems.push(("proxy-awaited-without-reply-ack".into(), "the proxy call did not return until the request was handled".into()));
+        }
+    }
+    if let Err(p) = &handled {
+        problems.push(("panic".into(), format!("{} at {}", p.msg, p.location)));
+    }
+    // the lent descriptor is still ours
+    if sys::ident(file.as_raw_fd()) != file_id {
+        problems.push(("lent-descriptor-closed".into(), String::new()));
+    }
+    for a in acks.iter_mut() {
+        a.close_fds();
+    }
+    let ok = problems.is_empty();
+    for (sig, why) in problems {
+        report::violation(
+            &format!("C18:{}:{sig}", op.name()),
+            jo! {"request" => op.j(), "handler_result" => format!("{out:?}"), "reply_ack" => s.reply_ack, "position_in_session" => seqno, "why" => why},
+            cfg.replay(case),
+        );
+    }
+    report::sample(&format!("{}:{}", op.name(), s.reply_ack), jo! {"request" => op.j(), "handler_result" => format!("{out:?}"), "reply_ack" => s.reply_ack, "ack_value_on_wire" => if s.reply_ack { J::x64(want_val) } else { J::Null }, "proxy_result" => format!("{:?}", res.as_ref().map_err(|p| p.msg.clone()))});
+    let keep = s.h.lock().unwrap().log.len().saturating_sub(2);
+    s.h.lock().unwrap().log.drain(..keep);
+    ok
+}
+
+pub fn run(cfg: &Cfg) {
+    report::assume("errno 0 is excluded from the handler results (not an errno); an error without errno is acknowledged as -EINVAL by the library's definition of 'error'");
+    let mut rng = Rng::new(cfg.seed.wrapping_mul(0xc18).wrapping_add(cfg.shard));
+    let mut outs: Vec<FeOut> = vec![FeOut::Val(0), FeOut::Val(1), FeOut::Val(2), FeOut::Val(1 << 63), FeOut::Val(u64::MAX), FeOut::Val(0x100), FeOut::Other];
+    for e in 1..=133 {
+        outs.push(FeOut::Errno(e));
+    }
+    if let Some(o) = &cfg.only {
+        if let Some(st) = o.strip_prefix("rng:").and_then(|s| s.parse::<u64>().ok()) {
+            rng = common::Rng(st);
+        }
+    }
+    let mut idx = 0u64;
+    for reply_ack in [false, true] {
+        let case = format!("rng:{}", rng.0);
+        let mut s = session(reply_ack);
+        // exhaustive: 5 request kinds x every handler result, inside one long session
+        for k in 0..5u64 {
+            for out in &outs {
+                idx += 1;
+                if !cfg.mine(idx) {
+                    continue;
+                }
+                let op = c01::rand_beop(&mut rng, k);
+                if !one(cfg, &mut s, &op, out, idx, &case) {
+                    sys::close(s.tap_f);
+                    s = session(reply_ack);
+                }
+            }
+        }
+        // random mixed histories
+        for _ in 0..cfg.pick(600, 8000) {
+            idx += 1;
+            let k = rng.below(5);
+            let op = c01::rand_beop(&mut rng, k);
+            let out = if rng.chance(1, 2) { FeOut::Val(0) } else { rng.pick(&outs).clone() };
+            if !one(cfg, &mut s, &op, &out, idx, &case) {
+                sys::close(s.tap_f);
+                s = session(reply_ack);
+            }
+            if report::violations_so_far() > 20 {
+                return;
+            }
+        }
+        sys::close(s.tap_f);
+    }
 }
